@@ -259,6 +259,24 @@ class SimBytes(_SimBase):
         return out
 
 
+class SimBuffered(SimBytes):
+    """A buffered binary reader over a raw stream that delivers data in small pieces (a pipe, a socket, a
+    decompressor): ``peek`` returns what one raw read produced - possibly far less than asked for, possibly not
+    even a whole line - without advancing the position."""
+
+    def __init__(self, *args: Any, piece: int = 7, **kwargs: Any):
+        super().__init__(*args, **kwargs)
+        self._piece = piece
+
+    def peek(self, size: int = 0) -> bytes:
+        self._check()
+        self.faults.on_read()
+        return bytes(self._buf[self._pos: self._pos + self._piece])
+
+    def read1(self, size: int = -1) -> bytes:
+        return self.read(self._piece if size is None or size < 0 else min(size, self._piece))
+
+
 class FileEnv:
     """Scratch directory + router on the three open() calls of the path route.
 
